@@ -122,6 +122,11 @@ var e2Scenarios = map[string]e2Scenario{
 		{txn(ins(put("p0", 77), add("m", 1)), at(1, add("m", 1), put("p0", 1)))},
 		{txn(ins(put("p1", 88)), at(1, add("m", 2), put("p1", 2)))},
 	}},
+	// inserts into an empty collection: the first reservation makes a block that nothing was committed to yet
+	"ins-empty": {Name: "ins-empty", Rows: nil, YieldInsert: true, Writers: [][]TxnSpec{
+		{txn(ins(put("p0", 77), add("m", 1)))},
+		{txn(ins(put("p1", 88)), ins(put("p1", 89)))},
+	}},
 	// a rolled-back writer beside a committing one
 	"abort": {Name: "abort", Rows: []uint32{1, 2}, YieldInsert: true, Writers: [][]TxnSpec{
 		{aborted(ins(put("p0", 77)), at(1, add("m", 1), put("p0", 1))), txn(at(2, put("p0", 5)))},
